@@ -98,7 +98,7 @@ def build(rnd, tier, flags):
     r = gen.R(rnd)
     meta = progs.meta_of(flat)
     std = "f2008" if (meta["f08"] or g.o.f08) else r.pick(["f2003", "f2008"])
-    lo = layout.FreeOpts(trail_blanks=r.pick([0, 0, 25]), big_indent=r.pick([0, 0, 10]), cont=r.pick([5, 12, 25]), lead_amp=r.pick([0, 50, 100]), lit_break=r.pick([0, 40]),
+    lo = layout.FreeOpts(eol_variants=True, trail_blanks=r.pick([0, 0, 25]), big_indent=r.pick([0, 0, 10]), cont=r.pick([5, 12, 25]), lead_amp=r.pick([0, 50, 100]), lit_break=r.pick([0, 40]),
                          comments=r.pick([0, 15]), trailing=r.pick([0, 10]), blank_lines=r.pick([0, 10]),
                          cont_comments=r.pick([0, 30]), semis=r.pick([0, 20, 80]), indent=r.chance(70),
                          kwcase=r.chance(50), namecase=r.chance(40), blanks=r.chance(30),
